@@ -785,3 +785,60 @@ Lemma session_flatten_keeps : forall fresh c ops c' s,
   exists r, to_flatcolumn parse fresh c' = Ok r /\ forall f, In f flat_kept -> get f r = get f c'.
 Proof. intros fresh c ops c' s _ Hn Hc. exact (flatten_keeps parse fresh c' s Hn Hc). Qed.
 End Sessions.
+
+(* ==================== Round 5: the default is cast with the column's FINAL parameters ==================== *)
+Section FinalParams.
+Variable parse : str -> params -> pv -> result pv.
+
+Lemma norm_default_final : forall c4 c,
+  norm_default parse c4 = Ok c ->
+  is_none (c_default c) = false ->
+  forall m, c_type c = PA (ATy m) -> m <> missing_member ->
+  exists D, parse m (col_params c) D = Ok (c_default c).
+Proof.
+  intros c4 c H Hd m Hm Hn. unfold norm_default in H.
+  destruct (is_none (c_default c4)) eqn:E0.
+  { inversion H; subst c. rewrite E0 in Hd. discriminate. }
+  destruct (c_type c4) as [a|l] eqn:Et; [|discriminate].
+  destruct a; try discriminate.
+  - destruct z; try discriminate. inversion H; subst c. rewrite Et in Hm. discriminate.
+  - destruct (str_eqb m0 missing_member) eqn:Em.
+    + inversion H; subst c. rewrite Et in Hm. inversion Hm; subst m0.
+      apply str_eqb_eq in Em. contradiction.
+    + destruct (parse m0 (col_params c4) (c_default c4)) as [v|e] eqn:Ep.
+      * inversion H; subst c. exists (c_default c4).
+        destruct c4. cbn in *. inversion Et; subst. inversion Hm; subst. exact Ep.
+      * destruct e; discriminate.
+Qed.
+
+Lemma init_default_final : forall cls fresh kw c,
+  init parse cls fresh kw = Ok c ->
+  is_none (c_default c) = false ->
+  forall m, c_type c = PA (ATy m) -> m <> missing_member ->
+  exists D, parse m (col_params c) D = Ok (c_default c).
+Proof.
+  intros cls fresh kw c H. unfold init in H.
+  destruct (collect cls fresh kw) as [l|e]; [|discriminate]. cbn [bind] in H.
+  destruct (norm_disposition (of_assoc l)) as [c1|e]; [|discriminate]. cbn [bind] in H.
+  destruct (norm_element c1) as [c2|e]; [|discriminate]. cbn [bind] in H.
+  destruct (norm_type c2) as [c3|e]; [|discriminate]. cbn [bind] in H.
+  destruct (norm_decimal c3) as [c4|e]; [|discriminate]. cbn [bind] in H.
+  exact (norm_default_final c4 c H).
+Qed.
+
+(* parse leaves its own results alone (C07's idempotence of the casts) *)
+Definition parse_idempotent : Prop := forall m q v r, parse m q v = Ok r -> parse m q r = Ok r.
+
+Lemma init_default_ok : forall cls fresh kw c,
+  parse_idempotent ->
+  init parse cls fresh kw = Ok c ->
+  default_ok parse c (c_default c).
+Proof.
+  intros cls fresh kw c Hid H. unfold default_ok. destruct (untyped c) eqn:Eu; [reflexivity|].
+  split; [reflexivity|]. intros Hd m Hm.
+  assert (Hn : m <> missing_member).
+  { intros ->. unfold untyped in Eu. rewrite Hm in Eu. rewrite str_eqb_refl in Eu. discriminate. }
+  destruct (init_default_final cls fresh kw c H Hd m Hm Hn) as [D HD].
+  exact (Hid _ _ _ _ HD).
+Qed.
+End FinalParams.
